@@ -294,6 +294,15 @@ func (p *Play) betweenOps(phase string) {
 		if ch.Rebuy && len(busted) > 0 {
 			kinds = append(kinds, "rebuy", "rebuy")
 		}
+		var satOut []string
+		for _, ps := range t.State.PlayerStates {
+			if !ps.IsIn && ps.Bankroll > 0 {
+				satOut = append(satOut, ps.PlayerID)
+			}
+		}
+		if ch.SitOut && len(satOut) > 0 {
+			kinds = append(kinds, "sitin")
+		}
 		// add-ons go to players who still have chips: PlayerRedeemChips does not tell the seat manager that a
 		// busted player has chips again (only a re-buy through PlayerReserve or the next continue does), and a
 		// paused table that is resumed by hand would then refuse to rotate - outside every property statement
@@ -396,6 +405,11 @@ func (p *Play) betweenOps(phase string) {
 			}
 		case "rebuy":
 			p.Rebuy(phase, busted[r.Intn(len(busted))], p.chipsAmount())
+		case "sitin":
+			// somebody who held a seat without sitting in (possibly for several hands) sits in now
+			id := satOut[r.Intn(len(satOut))]
+			p.C.Feature("late-sit-in-between-hands")
+			p.record(OpRec{Kind: "join", ID: id, Phase: phase}, p.SS.S.Join(id))
 		case "addon":
 			p.AddOn(phase, alive[r.Intn(len(alive))], p.chipsAmount())
 		case "addon-busted":
